@@ -222,6 +222,79 @@ def shift_space():
                  batch=50)
 
 
+# ------------------------------------------------------------------------------------------------ family E
+# an uncaught throw reaches the embedder as a JSError that describes the thrown value
+
+UNCAUGHT_VALUES = [
+    ("number", "5", ["5"]), ("string", "'some text'", ["some text"]), ("null", "null", ["null"]), ("undefined", "undefined", ["undefined"]),
+    ("boolean", "false", ["false"]), ("Error", "new Error('plain msg')", ["Error", "plain msg"]),
+    ("TypeError", "new TypeError('type msg')", ["TypeError", "type msg"]), ("RangeError", "new RangeError('range msg')", ["RangeError", "range msg"]),
+    ("SyntaxError", "new SyntaxError('syntax msg')", ["SyntaxError", "syntax msg"]),
+    ("ReferenceError", "new ReferenceError('ref msg')", ["ReferenceError", "ref msg"]),
+    ("renamed-error", "(function () { var e = new Error('renamed msg'); e.name = 'MyError'; return e })()", ["MyError", "renamed msg"]),
+    ("error-like-object", "({name: 'LikeName', message: 'like msg'})", ["LikeName", "like msg"]),
+    ("object-with-toString", "({toString: function () { return 'custom text' }})", ["custom text"]),
+    ("array", "[1, 2, 3]", ["1,2,3"]), ("empty-message", "new TypeError()", ["TypeError"]),
+]
+UNCAUGHT_RUNTIME = [
+    ("null-member", "null.x", ["TypeError"]), ("undefined-call", "undefined()", ["TypeError"]), ("unknown-identifier", "noSuchName", ["ReferenceError", "noSuchName"]),
+    ("repeat-negative", "'a'.repeat(-1)", ["RangeError"]), ("bad-regex", "new RegExp('(')", ["SyntaxError"]), ("bad-json", "JSON.parse('{')", ["SyntaxError"]),
+    ("toFixed-range", "(1).toFixed(200)", ["RangeError"]), ("bad-uri", "decodeURIComponent('%')", ["URIError"]),
+]
+UNCAUGHT_PLACES = {
+    "top": "@;", "function": "function f() { @; } f();", "nested-function": "function f() { function g() { @; } g(); } f();",
+    "callback": "[1].forEach(function () { @; });", "sort-comparator": "[2, 1].sort(function () { @; });", "getter": "({get p() { @; }}).p;",
+    "valueOf": "+{valueOf: function () { @; }};", "indirect-eval": "(1, eval)(\"@;\");", "new-Function": "new Function(\"@;\")();",
+    "finally-passes": "try { @; } finally { var done = 1; }", "rethrow": "try { @; } catch (e) { throw e; }",
+    "catch-in-callee-only": "function f() { try { return 1 } catch (e) { } } f(); @;", "arrow": "var a = () => { @; }; a();",
+    "bound": "var b = (function () { @; }).bind(null); b();", "constructor": "function K() { @; } new K();",
+    "toJSON": "JSON.stringify({toJSON: function () { @; }});", "replace-callback": "'a'.replace(/a/, function () { @; });",
+}
+
+
+def run_uncaught(payload):
+    e = engine()
+    e.CLOCK.reset("poll")
+    ctx = e.Context(time_limit=100)
+    try:
+        r = ctx.eval(payload["src"])
+        return "returned %r\x00JSError mentioning %s" % (r, payload["need"])
+    except e._errors.JSError as ex:
+        text = str(ex)
+        missing = [n for n in payload["need"] if n not in text]
+        kind = type(ex).__name__
+        if kind not in ("JSError", "JSTypeError", "JSRangeError", "JSReferenceError", "JSSyntaxError", "JSURIError"):
+            return "%s: %s\x00ok" % (kind, text[:80])
+        return ("ok" if not missing else "JSError %r does not mention %s" % (text[:100], missing)) + "\x00ok"
+    except BaseException as ex:  # noqa: BLE001
+        return "host %s\x00ok" % type(ex).__name__
+
+
+def uncaught_cases():
+    out = []
+    for pn, tmpl in UNCAUGHT_PLACES.items():
+        for vn, vsrc, need in UNCAUGHT_VALUES:
+            stmt = "throw " + vsrc
+            if pn in ("indirect-eval", "new-Function"):
+                stmt = stmt.replace("\\", "\\\\").replace('"', '\\"')
+            out.append(("E|place=%s|throw=%s" % (pn, vn), {"src": tmpl.replace("@", stmt), "need": need}))
+        for vn, vsrc, need in UNCAUGHT_RUNTIME:
+            stmt = vsrc
+            if pn in ("indirect-eval", "new-Function"):
+                stmt = stmt.replace("\\", "\\\\").replace('"', '\\"')
+            out.append(("E|place=%s|raise=%s" % (pn, vn), {"src": tmpl.replace("@", stmt), "need": need}))
+    return out
+
+
+def e_space():
+    return Space("c07_uncaught", "mc.props.c07:run_uncaught", uncaught_cases, oracle="inline", batch=60,
+                 rule="%d thrown values and %d run-time / built-in errors left uncaught in %d places (program level, functions, callbacks "
+                      "of built-ins, accessors, conversions, nested eval, new Function, finally without catch, rethrow, arrows, bound "
+                      "functions, constructors): eval raises a JSError whose text contains the error's name and message (or the string "
+                      "form of a thrown non-error value)" % (len(UNCAUGHT_VALUES), len(UNCAUGHT_RUNTIME), len(UNCAUGHT_PLACES)),
+                 bound="%d x %d" % (len(UNCAUGHT_VALUES) + len(UNCAUGHT_RUNTIME), len(UNCAUGHT_PLACES)))
+
+
 # ------------------------------------------------------------------------------------------------ tiers
 def _interleave(*lists):
     out = []
@@ -288,7 +361,7 @@ def d_space():
 
 
 def spaces(tier, seed, all_strata=False):
-    core = a_core_spaces() + b_core_spaces() + [shift_space(), d_space()]
+    core = a_core_spaces() + b_core_spaces() + [shift_space(), d_space(), e_space()]
     native = a_native_strata()
     bst = b_strata()
     if tier == "thorough" or all_strata:
@@ -468,6 +541,9 @@ def _features(*names):
 
 
 def signature(sp, cid, payload, exp, obs):
+    if sp.name == "c07_uncaught":
+        what = cid.split("|")[2]
+        return "uncaught|%s|%s" % (what, obs[:12]), "uncaught %s: the JSError given to the embedder: %s" % (what, obs[:120])
     if cid.startswith("D|"):
         parts = dict(x.split("=", 1) for x in cid.split(" :: ")[0].split("|")[1:])
         from .common import mismatch_kind
